@@ -175,14 +175,11 @@ def r2(ctx):
         ncell += 1
 
         def values(pe, t=t):
-            if vf.last_field(pe) == "pdu_header.type" and vf.root_of(pe)[0] == "alloca":
-                return t
+            f = vf.last_field(pe) or ""
+            if f.startswith("pdu_header.") and vf.root_of(pe)[0] == "alloca":
+                return {"type": t, "len": 20}.get(f.split(".")[1])      # a header whose length is within bounds
             return None
-
-        def oracle(inst, pred, a, b, E):
-            if pred in ("ult", "ugt") and (vf.mentions(a, lambda x: isinstance(x, tuple) and x[0] == "load" and vf.last_field(x[1]) == "pdu_header.len")):
-                return False    # length within bounds
-            return None
+        oracle = None
 
         def classify(inst, E, st_):
             if inst.op == "call" and inst.callee == "tr_recv_all":
@@ -221,18 +218,14 @@ def r3(ctx, retsets):
 
     def is_htype(e):
         return e[0] == "load" and vf.last_field(e[1]) == "pdu_header.type" and vf.root_of(e[1])[0] == "alloca"
-    for differ in (True, False):
-        def oracle(inst, pred, a, b, E, differ=differ):
-            if pred in ("eq", "ne"):
-                if (is_hver(a) and b == VERSION) or (is_hver(b) and a == VERSION):
-                    seen_cmp.append(inst)
-                    return (not differ) if pred == "eq" else differ
-                if (is_htype(a) and b == ("c", 10)) or (is_htype(b) and a == ("c", 10)):
-                    return pred == "ne"   # not an Error Report
-                if (is_hver(a) and b[0] == "c") or (is_hver(b) and a[0] == "c"):
-                    return None
-            if pred in ("ult", "ugt") and (vf.mentions(a, lambda x: isinstance(x, tuple) and x[0] == "load" and vf.last_field(x[1]) == "pdu_header.len")):
-                return False    # length within bounds
+    for differ, ptype in [(True, t) for t in range(0, 12) if t != 10] + [(False, 4)]:
+        # decoded header: a 20-byte PDU of every type but Error Report whose version byte is / is not the negotiated one (negotiated: 1)
+        def values(pe, differ=differ, ptype=ptype):
+            f = vf.last_field(pe) or ""
+            if f.startswith("pdu_header.") and vf.root_of(pe)[0] == "alloca":
+                return {"len": 20, "type": ptype, "ver": 0 if differ else 1}.get(f.split(".")[1])
+            if pe == ("fld", SOCK, "rtr_socket.version"):
+                return 1
             return None
 
         def classify(inst, E, st):
@@ -247,21 +240,23 @@ def r3(ctx, retsets):
                 if inst.callee == fsm.CHANGE:
                     return ["state%s" % flow.av_single(E.val(inst.args[1]))]
             return None
-        outs, fl = es.count_effects(fn, pdb, classify, retsets, cell={HRP: 1, ("fld", SOCK, "rtr_socket.state"): 0}, oracle=oracle)
+        outs, fl = es.count_effects(fn, pdb, classify, retsets, cell={HRP: 1, ("fld", SOCK, "rtr_socket.state"): 0}, values=values,
+                                    pinned=lambda pe: pe in (HRP, ("fld", SOCK, "rtr_socket.state")))
         if not outs:
             raise AnalysisBroken("rtr_receive_pdu: no return state in version cell")
         if differ:
             code = rfc8210.ERROR_CODES["unexpected protocol version"]
             bad = [o for o in outs if o["counts"].get("recv", 0) != 1 or o["counts"].get("sizecheck") or
                    o["counts"].get("report%d" % code) != 1 or o["ret"] != flow.av_in(err)]
-            ctx.check(not bad, "C13.R3", "receive[version differs, not Error Report]", (bad[0]["inst"].loc() if bad else "%s:%d" % (fn.relfile, fn.line)),
+            ctx.check(not bad, "C13.R3", "receive[version differs, PDU type %d]" % ptype, (bad[0]["inst"].loc() if bad else "%s:%d" % (fn.relfile, fn.line)),
                       "outcomes: %s" % [(o["counts"], o["ret"]) for o in outs][:4], key="C13.R3:differs")
         else:
             good = any(o["ret"] == flow.av_in(0) and o["counts"].get("sizecheck") for o in outs)
             ctx.check(good, "C13.R3", "receive[version equal]", "%s:%d" % (fn.relfile, fn.line), "a PDU of the negotiated version reaches the size check and success",
                       key="C13.R3:equal")
-    if not seen_cmp:
-        raise AnalysisBroken("rtr_receive_pdu: comparison of the header version with the negotiated version not found")
+    vloads = [i for i in fn.all_insts() if i.op == "load" and vf.expr(fn, i["ptr"]) == ("fld", SOCK, "rtr_socket.version")]
+    if not vloads:
+        raise AnalysisBroken("rtr_receive_pdu: the negotiated version is never read")
 
 
 def belief_contradictions(pdb, retsets, units):
